@@ -3,7 +3,7 @@ PROPS = {
                 technique="runtime fault-injection monitor: real telegram.Client over a harness kill-switch link against tgtest, server-side execution log + caller outcomes",
                 text="Fault table {before send (write stuck / frame torn / bytes lost), after send, after ack (ack consumption confirmed), after result} x {reconnect, client close} x 1..3 in flight, "
                      "enumerated completely per variation; unacknowledged requests must be re-executed on the replacement connection and return their result, acknowledged ones must not be "
-                     "executed again and must fail, after close pending and new invocations must return, also when the replacement connection never gets ready (dial blocks / dials fail / connects and stalls) and when closed during the first connect. Race detector on. Both a harness-side socket close and a server-side "
+                     "executed again and must fail, after close pending and new invocations must return, also when the replacement connection never gets ready (dial blocks / dials fail / connects and stalls) and when closed during the first connect; close by parent ctx, callback return or callback error with the pending request issued from a harness goroutine or from an update handler (Run itself must return). Race detector on. Both a harness-side socket close and a server-side "
                      "disconnect (real EPIPE) are used as the kill.",
                 note="Trusted: tgtest as MTProto peer, loopback TCP, the client's own logger record as the 'ack consumed' barrier. An ack/result in flight at the kill allows either outcome. "
                      "Hangs are verdicts only when the goroutine is provably parked in invokeConn after the awaited event; other watchdog expiries are inconclusive.",
